@@ -26,10 +26,7 @@
 
    Executable definitions only (plus the specification predicate [vprefix]).  Not modelled:
    typed templates, the CTE decoder (ANTLR's behaviour on a truncated text is observed by
-   the harness only), times (Model/Cbe.v decodes the three time codes to an error), the
-   aliasing of record-type keys with the CBE reader's buffer (the keys of a record built
-   from a CBE document are whatever the buffer holds later; documents with records are left
-   out of the correspondence cases). *)
+   the harness only), times (Model/Cbe.v decodes the three time codes to an error). *)
 From CE Require Export Model.Build.
 From CE Require Model.Cbe Model.Rules.
 Open Scope N_scope.
